@@ -309,6 +309,34 @@ func c06(r *hx.Run) {
 	}
 	e.run(r, checkHist("P"))
 	eu.run(r, checkHist("U"))
+	// version-id cuts on coordinates that need the full width of uint64 (times / numbers 2^63 and more apart): resolving at the
+	// version id of an operation equals resolving the operations anchored at or before it
+	ew := &histEnum{pool: pool, alpha: []string{"C", "U01", "U12", "R01", "V01", "D0"}, coords: wideGrid, depth: 3, pubModes: "p"}
+	ew.run(r, func(placed []fx.Placed) {
+		for _, at := range placed {
+			caseID := "wide|" + HistKey(placed) + "|V=" + at.Ref()
+			if !r.Want(caseID) {
+				continue
+			}
+			var kept []fx.Placed
+			for _, pl := range placed {
+				if pl.Time < at.Time || (pl.Time == at.Time && pl.Num <= at.Num) {
+					kept = append(kept, pl)
+				}
+			}
+			got := projectHist(ResolveImpl(client, pool.Suffix, placed, document.WithVersionID(at.Ref())))
+			want := projectHist(ResolveImpl(client, pool.Suffix, kept))
+			r.Eval()
+			r.Trans(1)
+			if len(kept) < len(placed) {
+				r.Nontrivial(caseID)
+			}
+			if got != want {
+				r.Violation("version-id-wide-coordinates:"+diffFields(got.R, want.R), caseID,
+					fmt.Sprintf("history %v resolved at versionId %s\n  got      : %s pub=[%s]\n  truncated: %s pub=[%s]", placedDesc(placed), at.Ref(), got.R, got.Pub, want.R, want.Pub), nil)
+			}
+		}
+	})
 	c06REST(r, pool, client)
 	r.Assumptions = append(r.Assumptions,
 		"'truncated history' for a version id = the published operations up to and including the referenced one in (time, number) order; for a version time = all operations (published or not) with transaction time <= T",
